@@ -41,13 +41,13 @@ STUBBED = ['threading.RLock/Event/Thread -> scheduler-aware doubles', 'select mo
            'atexit/signal registration -> no-ops']
 ASSUMPTIONS = ['pre-emption at source-line granularity of the monitored modules', 'firing threads start firing once manager.running is true']
 PROBES = ['preempted', 'bystander-manager', 'fired-while-loop-idle', 'cfg:fallback', 'cfg:Select', 'cfg:Poll', 'cfg:EPoll', 'timed-idle-wait',
-          'family:bounded', 'family:site', 'family:walk', 'family:pair']
+          'family:bounded', 'family:site', 'family:walk', 'family:pair', 'family:pingpong', 'pingpong-completed']
 TIERS = {
     'quick': dict(runs=9000, wall=30, chunk=25, cfg=dict(max_firers=3, max_fires=3)),
     'thorough': dict(runs=300000, wall=600, chunk=200, cfg=dict(max_firers=3, max_fires=5)),
 }
 
-LOOP_SITES_N = {'_on_generate_events': 12, '_generate_events': 10, '_dispatcher': 45, 'reduce_time_left': 8, 'tick': 8,
+LOOP_SITES_N = {'append': 3, '_on_generate_events': 12, '_generate_events': 10, '_dispatcher': 45, 'reduce_time_left': 8, 'tick': 8,
                 'dispatchEvents': 10, '_flush': 6, '_read_ctrl': 4, 'run': 6, 'fireEvent': 8, '_fire': 8, '_process': 6}
 LOOP_SITES = sorted(LOOP_SITES_N)
 FIRER_SITES_N = {'_fire': 10, 'fireEvent': 8, 'reduce_time_left': 8, 'resume': 3, 'append': 3}
@@ -196,6 +196,17 @@ def _run(ctx, ch, sched, conf, horizons):
                 ctx.log('R', name, i)
                 ctx.trace('%s: fire(ping(%s,%d)) returned' % (name, name, i))
                 check_asleep('after fire() of %s returned' % name)
+                pp = st.get('pp')
+                if pp is not None and not pp['done'] and pp['firer'] == name and sched.threads[loop_name].state == 'runnable':
+                    # ping-pong schedule: the loop thread was pre-empted in favour of this firing thread; after k complete fires the loop
+                    # gets a short stretch of m lines, then this thread goes on (read - interleave - write back - interleave)
+                    pp['fires'] += 1
+                    if pp['fires'] >= pp['k']:
+                        pp['done'] = True
+                        ctx.stat('pingpong-completed')
+                        sched.plan[(loop_name, sched.threads[loop_name].steps + pp['m'])] = name
+                        ctx.trace('%s: pauses after %d fire(s); the loop thread gets %d line(s)' % (name, pp['fires'], pp['m']))
+                        sched._switch(prefer=loop_name)
         return firer
 
     fnames = ['f%d' % i for i in range(nf)]
@@ -243,7 +254,7 @@ def _run(ctx, ch, sched, conf, horizons):
         fam = -2
         sched.plan = dict(ctx.cfg['force_plan'])
     else:
-        fam = ch.weighted([3, 3, 2, 4], 'family')
+        fam = ch.weighted([3, 3, 2, 4, 3], 'family')
     if fam == 0:
         ctx.stat('family:bounded')
         sched.plan = simthreads.make_plan(ch, {n: horizons['steps'][n] for n in names}, ch.randint(0, 3, 'd'), names)
@@ -267,9 +278,13 @@ def _run(ctx, ch, sched, conf, horizons):
         # stopped inside fire(), the loop goes to sleep, the firing thread finishes
         ctx.stat('family:pair')
         f = ch.choice(fnames, 'pair-firer')
-        if ch.chance(1, 2, 'pair-near-sleep'):
+        win = ch.weighted([2, 1, 1], 'pair-window')
+        if win == 0:
             # the last few lines before the loop blocks for the first time (the dry run's count; exact unless events arrive earlier)
             i = max(1, horizons['first_sleep'] - ch.weighted([3, 2, 2, 1, 1, 1, 1, 1, 1, 1], 'pair-before-sleep'))
+        elif win == 1:
+            # the stretch before that: from the dispatcher arming generate_events to the idle handler (some 60 lines)
+            i = max(1, horizons['first_sleep'] - 10 - ch.draw(50, 'pair-before-sleep-mid'))
         else:
             i = 1 + ch.draw(max(1, horizons['first_sleep']), 'pair-loop-step')
         j = 1 + ch.draw(max(1, horizons['steps'][f]), 'pair-firer-step')
@@ -279,6 +294,18 @@ def _run(ctx, ch, sched, conf, horizons):
             sched.plan[(f, j)] = back
         if ch.chance(1, 3, 'pair-more'):
             sched.plan.update(simthreads.make_plan(ch, {n: horizons['steps'][n] for n in names}, 1, names))
+
+    elif fam == 4:
+        # ping-pong: the loop thread is stopped at the n-th line of one of its functions, a firing thread completes k fires, the loop thread
+        # runs m more lines, the firing thread continues - the shape of a lost update between an unlocked read-modify-write of the loop
+        # thread and the locked one of a firing thread
+        ctx.stat('family:pingpong')
+        f = ch.choice(fnames, 'pp-firer')
+        # a third of the time inside the loop thread's own queue operation: the one piece of state it shares with firing threads without the lock
+        fn = 'append' if ch.chance(1, 3, 'pp-in-append') else ch.choice(LOOP_SITES, 'pp-fn')
+        nth = 1 + ch.draw(LOOP_SITES_N[fn] * (total + 2), 'pp-nth')
+        sched.site_plan[(loop_name, fn, nth)] = f
+        st['pp'] = dict(firer=f, k=ch.randint(1, 3, 'pp-k'), m=ch.randint(1, 12, 'pp-m'), fires=0, done=False)
 
     t0 = W.now
     ok = sched.start(first=None)
